@@ -99,6 +99,11 @@ def core_fstring(t):
         # f'-{region_str}'
         if len(t.args) == 2 and isinstance(t.args[0], Const) and t.args[0].v == '-' and isinstance(t.args[1], App):
             return 'always', t.args[1]
+        # f'{sign}{name}({params})' with sign = '' / '-' chosen by a condition
+        p0 = t.args[0] if t.args else None
+        if isinstance(p0, Ite) and isinstance(p0.a, Const) and isinstance(p0.b, Const) and {p0.a.v, p0.b.v} == {'', '-'}:
+            cond = p0.cond if p0.a.v == '-' else BoolT('not', (p0.cond,))
+            return cond, App('fstring', tuple(t.args[1:]))
         return None, t
     if isinstance(t, Ite):
         for with_, without, cond in ((t.a, t.b, t.cond), (t.b, t.a, BoolT('not', (t.cond,)))):
